@@ -33,6 +33,8 @@ FILES = ["a.gdn", "b.gdn", "c.gdn", "sub/d.gdn", "e.gdn"]
 MISSING = "nosuch.gdn"
 TIMEOUT = 10
 
+SHAPES = ["rootcycle", "chain", "cycle", "diamond", "rootcycle", "cycle", "self", "multi", "random", "random"]
+
 K_PRIV_TYPE = "C34/private-type-visible"
 K_PRIV_METH = "C34/private-method-visible"
 K_VARIANTS = "C34/public-enum-variants-not-imported"
@@ -106,6 +108,13 @@ class Gen:
             for i in range(n - 1):
                 add(names[i], names[i + 1])
             add(names[-1], rng.choice(names[:-1]))
+        elif shape == "rootcycle":
+            # a cycle THROUGH THE ENTRY FILE: main imports F, F imports main back (the only importer of
+            # main); further files hang off F or main and never import main
+            add(names[0], names[1])
+            add(names[1], names[0], rng.choice(["plain", "plain", "as"]))
+            for i in range(2, n):
+                add(rng.choice(names[:i]), names[i])
         elif shape == "self":
             for i in range(n - 1):
                 add(names[i], names[i + 1])
@@ -121,9 +130,11 @@ class Gen:
             for _ in range(rng.randint(0, n)):
                 add(rng.choice(names), rng.choice(names))
         # main always imports something under an alias and something plainly, most of the time
-        if rng.random() < 0.8 and not any(m == "as" for _, m in edges[names[0]]):
+        if shape == "rootcycle":
+            pass
+        elif rng.random() < 0.8 and not any(m == "as" for _, m in edges[names[0]]):
             add(names[0], rng.choice(names[1:]), "as")
-        if rng.random() < 0.6 and not any(m == "plain" for _, m in edges[names[0]]):
+        if shape != "rootcycle" and rng.random() < 0.6 and not any(m == "plain" for _, m in edges[names[0]]):
             add(names[0], rng.choice(names[1:]), "plain")
         missing_mode = rng.random()
         if missing_mode < 0.04:
@@ -136,6 +147,8 @@ class Gen:
         for name in names:
             own_structs = set()
             items = self.defs(name == "main.gdn", own_structs)
+            if shape == "rootcycle" and name == "main.gdn" and not any(i[0] == "fn" and i[1] for i in items):
+                items.append(("fn", True, rng.choice(FN[:3]), self.next_tag(), None))
             alias_n = 0
             imps = []
             for dst, mode in edges[name]:
@@ -150,9 +163,17 @@ class Gen:
                     imps.append(("imp", dst, None))
             # place imports: mostly first, sometimes in between / after the definitions
             for imp in imps:
-                pos = 0 if rng.random() < 0.55 else rng.randint(0, len(items))
+                pos = 0 if (rng.random() < 0.55 or shape == "rootcycle") else rng.randint(0, len(items))
                 items.insert(pos, imp)
-            if name != "main.gdn" and rng.random() < (0.9 if shape == "cycle" else 0.6):
+            if shape == "rootcycle" and name == names[1]:
+                # functions of F that CALL functions of the entry file along the back edge
+                main_fns = [i[2] for i in files["main.gdn"] if i[0] == "fn"]
+                back = [i for i in items if i[0] == "imp" and i[1] == "main.gdn"][0]
+                for k in range(2):
+                    x = rng.choice(main_fns) if (k == 0 or rng.random() < 0.7) else rng.choice(FN[:3])
+                    body = ("qual", back[2], x, True) if back[2] else ("bare", x, True)
+                    items.insert(rng.randint(1, len(items)), ("fn", True, via_name(name, k), self.next_tag(), body))
+            elif name != "main.gdn" and rng.random() < (0.9 if shape == "cycle" else 0.6):
                 # functions whose body looks a name up in THIS file's namespace
                 aliases = [i[2] for i in items if i[0] == "imp" and i[2]]
                 for k in range(rng.randint(1, 2)):
@@ -258,6 +279,10 @@ def probes_for(rng, proj, limit):
         for v in vias[:2]:
             ps.append(("qual", a, v, True))
         ps.append(("qual", a, "viaz0", True))          # defined nowhere
+    plain = [i[1] for i in main if i[0] == "imp" and i[2] is None]
+    pvias = sorted({i[2] for t in plain for i in proj["files"].get(t, []) if i[0] == "fn" and i[4] is not None})
+    for v in pvias[:2]:
+        ps.append(("bare", v, True))
     for f in FN:
         ps.append(("bare", f, True))
     for v in VARIANTS:
@@ -270,10 +295,11 @@ def probes_for(rng, proj, limit):
     for s in STRUCTS:
         ps.append(("mstruct", s, rng.choice(METHS)))
     if len(ps) > limit:
-        keep = [p for p in ps if p[0] == "qual" and p[2].startswith("via")]
+        keep = [p for p in ps if (p[0] == "qual" and p[2].startswith("via") and p[2] != "viaz0")
+                or (p[0] == "bare" and p[1].startswith("via"))]
         rest = [p for p in ps if p not in keep]
         rng.shuffle(rest)
-        ps = keep[:max(2, limit // 4)] + rest
+        ps = keep[:max(4, limit // 3)] + rest
         ps = ps[:limit]
     return ps
 
@@ -574,7 +600,7 @@ def oracle(ctx, proj, probes, results, srcs):
             continue     # loading reports the unreadable file; nothing is evaluated
         cerr, rerr = is_err(c), is_err(r)
         kind = p[0]
-        inner = kind == "qual" and p[2].startswith("via")
+        inner = (kind == "qual" and p[2].startswith("via")) or (kind == "bare" and p[1].startswith("via"))
         # O5: check time and run time agree on main-level probes
         if not inner and cerr != rerr:
             ctx.fail("C34/check-run-disagree", "check time says %s, run time says %s" % (c, r), **replay(p, c, r))
@@ -657,15 +683,40 @@ def oracle(ctx, proj, probes, results, srcs):
             if pubv and not any(pubv) and not rerr:
                 ctx.fail("C34/private-variant-reachable", "`%s::%s` reached: %s" % (p[1], p[2], r), **replay(p, c, r))
         elif inner and not cerr:
-            # the body of via<k> in file F looks a function name up in F's own scope
-            targets = [i[1] for i in main if i[0] == "imp" and i[2] == p[1]]
-            if len(set(targets)) != 1 or targets[0] == proj["main"]:
+            # the body of via<k> (project-unique name) in file F looks a function up in F's own scope
+            vname = p[2] if kind == "qual" else p[1]
+            owners = [f for f, items in files.items() if any(i[0] == "fn" and i[2] == vname for i in items)]
+            if len(owners) != 1 or owners[0] == proj["main"]:
                 continue
-            F = targets[0]
-            vias = [i for i in files.get(F, []) if i[0] == "fn" and i[2] == p[2]]
-            if len(vias) != 1 or vias[0][4][0] != "bare":
+            F = owners[0]
+            if kind == "qual":
+                targets = [i[1] for i in main if i[0] == "imp" and i[2] == p[1]]
+                if set(targets) != {F}:
+                    continue
+            elif F not in direct_plain:
                 continue
-            x = vias[0][4][1]
+            vias = [i for i in files[F] if i[0] == "fn" and i[2] == vname]
+            if len(vias) != 1:
+                continue
+            body = vias[0][4]
+            x = body[2] if body[0] == "qual" else body[1]
+            if body[0] == "qual":
+                # F's `alias::x`: the namespace is shared by reference, so load order cannot matter
+                tg = [i[1] for i in files[F] if i[0] == "imp" and i[2] == body[1]]
+                if len(set(tg)) != 1 or tg[0] not in files:
+                    continue
+                G = tg[0]
+                flags = fn_flags(files[G], x)
+                if len(set(flags)) > 1:
+                    continue
+                expect = bool(flags) and flags[0]
+                if expect and rerr:
+                    ctx.fail("C34/public-fun-unreachable-qualified", "`%s::%s` in %s: `%s` is public in %s but %s" % (
+                        body[1], x, F, x, G, r), **replay(p, c, r))
+                if not expect and not rerr:
+                    ctx.fail("C34/private-fun-reachable-qualified-run", "`%s::%s` in %s is not a public function of %s "
+                             "but run gives %s" % (body[1], x, F, G, r), **replay(p, c, r))
+                continue
             local = bool(fn_flags(files[F], x))
             plain = [i[1] for i in files[F] if i[0] == "imp" and i[2] is None]
             fl = [fn_flags(files.get(t, []), x) for t in plain]
@@ -673,7 +724,17 @@ def oracle(ctx, proj, probes, results, srcs):
                 continue
             expect = local or any(f and f[0] for f in fl)
             if expect and rerr:
-                if on_cycle(proj, F):
+                # Every public function of a file is callable from every file that imports it without
+                # `as`. When F is the ONLY file that imports the entry file back, the entry file is not
+                # in `paths_seen` when F's import runs, so it is loaded in full there: no excuse.
+                via_entry = (not local and proj["main"] in plain
+                             and not any(f2 and f2[0] for t, f2 in zip(plain, fl) if t != proj["main"]))
+                importers = [f for f, items in files.items() if any(i[0] == "imp" and i[1] == proj["main"] for i in items)]
+                if via_entry and importers == [F] and F in direct_any:
+                    ctx.fail("C34/entry-cycle-public-fun-unreachable", "`%s` is a public function of the entry file %s, "
+                             "%s imports it without `as` (cycle through the entry file), but calling it from %s gives %s"
+                             % (x, proj["main"], F, F, r), **replay(p, c, r))
+                elif on_cycle(proj, F):
                     ctx.fail(K_CYCLIC_PARTIAL, "in an import cycle an unqualified import of a file that is still being "
                              "loaded copies only the public functions defined so far", **replay(p, c, r))
                 else:
@@ -730,6 +791,19 @@ def _run(ctx, rng, base):
     for fn_, _ in cyc_cases:
         jobs["cyc-" + fn_] = dict(cyc, **{"main.gdn": 'import "./a.gdn" as a\nimport "./b.gdn" as b\n'
                                                     'println(string_repr(b::%s()))\n' % fn_})
+    entry_cases = {
+        "entry-cycle-plain": {
+            "main.gdn": 'import "./b.gdn"\npublic fun a1(): Int { 1001 }\nprintln(string_repr(b1()))\n',
+            "b.gdn": 'import "./main.gdn"\npublic fun b1(): Int { a1() }\n'},
+        "entry-cycle-as": {
+            "main.gdn": 'import "./b.gdn" as b\npublic fun a1(): Int { 1001 }\nprintln(string_repr(b::b1()))\n',
+            "b.gdn": 'import "./main.gdn" as a\npublic fun b1(): Int { a::a1() }\n'},
+        "entry-cycle-ring": {
+            "main.gdn": 'import "./b.gdn" as b\npublic fun a1(): Int { 1001 }\nprintln(string_repr(b::b1()))\n',
+            "b.gdn": 'import "./c.gdn"\npublic fun b1(): Int { c1() }\n',
+            "c.gdn": 'import "./main.gdn"\npublic fun c1(): Int { a1() }\n'},
+    }
+    jobs.update(entry_cases)
     names = list(jobs)
     fx = dict(zip(names, common.pmap(lambda i: fixed_probe(ctx, base, "fx%d" % i, jobs[names[i]]), range(len(names)))))
     par_fixed = min(common.NPROC, len(names))
@@ -758,6 +832,17 @@ def _run(ctx, rng, base):
         if is_err(c) != expect_err or is_err(r) != expect_err or c.startswith("crash") or r.startswith("crash") \
                 or "timeout" in (c, r):
             ctx.fail("C34/fixed-two-file", "expected error=%s, got check %s run %s" % (expect_err, c, r), files=jobs[body])
+    for name in entry_cases:
+        c, r = fx[name]
+        ctx.case(("fixed", name), True)
+        if c == "timeout" or r == "timeout":
+            ctx.fail("C34/import-loop-timeout", "cyclic project did not finish", files=jobs[name])
+        elif c.startswith("crash") or r.startswith("crash"):
+            ctx.fail("C34/loader-crash", "cyclic project crashed: %s %s" % (c, r), files=jobs[name])
+        elif r != "ok:1001" or is_err(c):
+            ctx.fail("C34/entry-cycle-public-fun-unreachable", "a1 is a public function of the entry file and the other "
+                     "file imports the entry file, but the call along the back edge gives check %s run %s" % (c, r),
+                     files=jobs[name], check=c, run=r, how="`garden run main.gdn` must print 1001")
     for fn_, want in cyc_cases:
         c, r = fx["cyc-" + fn_]
         files = jobs["cyc-" + fn_]
@@ -782,7 +867,7 @@ def _run(ctx, rng, base):
     budget = int(75.0 * par / (per_process * 7))                      # ≈7 processes per project
     n_proj = int(os.environ.get("C34_PROJECTS", ctx.scale(max(24, min(300, budget)), 4000)))
     ctx.cov["seconds_per_garden_process"] = round(per_process, 3)
-    shapes = ["chain", "diamond", "cycle", "cycle", "self", "multi", "random", "random"]
+    shapes = SHAPES
     projs = []
     for k in range(n_proj):
         shape = shapes[k % len(shapes)]
@@ -795,7 +880,8 @@ def _run(ctx, rng, base):
         projs.append((k, proj, ps))
     ctx.rule = ("project directories of 2-%d files (main.gdn + a/b/c/sub/d/e.gdn); import graphs: chain, diamond, cycle "
                 "(incl. back to main), self-import, the same file imported twice under aliases and unqualified, random "
-                "digraphs; 3-7%% import an unreadable file once/twice; every file has 2-5 definitions (fun over 4 names, "
+                "digraphs, and cycles THROUGH THE ENTRY FILE (main imports F first, F imports main back with or without `as`, "
+                "F's functions call main's functions along the back edge); 3-7%% import an unreadable file once/twice; every file has 2-5 definitions (fun over 4 names, "
                 "struct, enum with variants, method on Int or a struct) with random `public`, imports placed before, "
                 "between or after them; non-main files get `via<k>` functions whose body looks a function up in that "
                 "file's own scope (project-unique names). Probes (batched per project, see module doc): ns::f(), ns::Variant, ns::println, ns::via<k>(), bare f(), bare "
